@@ -512,3 +512,8 @@ mut('defn-mse-abs', ['C06'], 'mse computes |p - t| * (p - t) ... written as (p -
 mut('defn-twin-softmax-respelled', ['C06', 'C09', 'C14'], 'softmax with the shift inlined and the quotient written as a product with the reciprocal', [(K, "    shiftx = a - a.max(axis=axis, keepdims=True) \n    exps = np.exp(shiftx)\n    exp_sums = exps.sum(axis=axis, keepdims=True)\n    return exps / exp_sums", "    m = np.max(a, axis=axis, keepdims=True)\n    exps = np.exp(a - m)\n    return exps * (1 / np.sum(exps, axis=axis, keepdims=True))")], expect='silent')
 mut('defn-twin-logsoftmax-direct', ['C06', 'C09', 'C14'], 'log_softmax written as shifted input minus log of the shifted sum', [(K, "    lse = max_val + np.log(exp.sum(axis=axis, keepdims=True))\n    log_softmax = a - lse", "    log_softmax = substract - np.log(exp.sum(axis=axis, keepdims=True))")], expect='silent')
 mut('defn-twin-bce-logits-softplus-form', ['C06', 'C14'], 'BCE-with-logits with the log-sum-exp factored the other way round', [(K, "    loss = (1-y_true) * y_pred + tn + np.log(np.exp(-tn) + np.exp((-y_pred-tn)))", "    loss = y_pred - y_true * y_pred + (tn + np.log(np.exp(-y_pred - tn) + np.exp(-tn)))")], expect='silent')
+# dtn cancels algebraically: dtn + (-dtn*e1 + (-1-dtn)*e2)/(e1+e2) = -e2/(e1+e2) for every dtn, so changing it preserves behaviour (the term rule sees that)
+mut('derivx-twin-bce-logits-dtn-irrelevant', ['C02'], 'BCE-with-logits backward with another value of the (cancelling) shift derivative', [(K, "    dtn = np.where(tn == 0, 0, -1)", "    dtn = np.where(tn == 0, 0, 1)")], expect='silent')
+mut('derivx-bce-logits-missing-target', ['C02'], 'BCE-with-logits backward drops the (1 - y) term', [(K, "    loss_grad = (1 - y_true) + dtn + (div1/(div2 + epsilon))", "    loss_grad = 1 + dtn + (div1/(div2 + epsilon))")], rules=['C02.DERIV-X', 'C02.'])
+mut('derivx-bce-terms-swapped', ['C02'], 'BCE backward pairs y with 1/(1-p)', [(K, "    term_0 = -(1 - y_true + epsilon) / ((1 - y_pred) + epsilon)\n    term_1 = (y_true + epsilon) / (y_pred + epsilon)", "    term_0 = -(y_true + epsilon) / ((1 - y_pred) + epsilon)\n    term_1 = (1 - y_true + epsilon) / (y_pred + epsilon)")], rules=['C02.DERIV-X', 'C02.'])
+mut('derivx-twin-bce-logits-sigmoid-form', ['C02'], 'BCE-with-logits backward: quotient written with the sum first', [(K, "    div2 = np.exp(-tn) + np.exp((-y_pred-tn))", "    div2 = np.exp((-y_pred-tn)) + np.exp(-tn)")], expect='silent')
